@@ -2,11 +2,15 @@
 import math
 
 from harness import common as C
+from translate import c08 as T08
 
 ID = 'C10'
 PROPS_V = 'C10/Props.v'
 LEVEL = 'proof'
 TRUSTED = [
+    'translate/c08.py: ast extraction of the index / comparison / constant arithmetic of bspline.py (77 expressions of '
+    '__init__, intrv, bsplvn, action, value, fit, maskpoints, cholesky_band, iterfit) into coq/Generated/BSpline.v; '
+    'BSpline/GenBridge.v + the Cxx_generated_* obligations prove that the hand-written reference models are built from exactly these',
     'hand-written models coq/BSpline/Eval.v, Fit.v, Iter.v (iter_loop = fit with w*mask; reject beyond lower/upper '
     'sigma in square-root-free form; un-sort) -- tied to iterfit/djs_reject by the correspondence run',
     'the knot vector is taken from the implementation (sset.breakpoints); its construction is C08\'s subject',
@@ -21,6 +25,10 @@ ASSUMPTIONS = [
     'lower, upper >= 0; inputs on which iterfit gives up early (fewer good points than nord, first fit -2) are judged by '
     'the direct checks only (the mask must still flag non-positive weights False)',
 ]
+
+def translate(ctx):
+    return {'BSpline': T08.regenerate(C)}
+
 
 HEADER = '''From Coq Require Import QArith ZArith List. Import ListNotations.
 From PV Require Import BSpline.Eval BSpline.Fit BSpline.Iter C10.Model. Open Scope Q_scope.'''
